@@ -148,3 +148,8 @@ def run(P: Program, rep: Report):
     rep.rule("C17.R4", "key normalisation: all keys lower-case and unique, the value of the last occurrence wins, first "
                        "occurrences keep their relative order, no value changes; idempotent")
     judge("C17.R4", "normalize", norm, {}, ref_normalize)
+
+    rep.rule("C17.R9", "no unsafe memoisation in the modules this property rests on: a function decorated with lru_cache / cache / "
+                      "cached_property neither takes nor returns a mutable object (else later calls see stale or shared results)")
+    from . import common as _common
+    _common.no_unsafe_memoisation(P, rep, "C17.R9", ['middlewares.sorting_entry_fields', 'middlewares.fieldkeys'])
